@@ -70,7 +70,8 @@ claim("C19", "model_checking", "TLA+ bit-level reference codec evaluated by TLC 
 claim("C22", "model_checking", "TLC trace validation: records logged from the real diff package judged against TLA+ reference definitions (valid edits, sequential splice, line patch)",
       "Diff.tla is a trace specification: for every logged (before, after, edits, package Apply result, unified hunks) TLC checks that the edits are sorted, in bounds, "
       "non-overlapping and on rune boundaries, that the TLA+ splice of the edits into `before` equals `after`, that the package's own Apply agrees, and that the hunks form a "
-      "correct line patch in which every hunk contains a change. Records: every pair of texts up to length 4 (quick) / 5 (thorough) over {a,b,LF}, pairs over multi-byte and "
+      "correct line patch in which every hunk contains a change, and that the rendered text (ToUnified), read back by a line-oriented patch reader in the harness, carries exactly "
+      "those hunk lines (TextFaithful). Records: every pair of texts up to length 4 (quick) / 5 (thorough) over {a,b,LF}, pairs over multi-byte and "
       "invalid-byte alphabets, and seeded random / mutated texts of 150-800 bytes (beyond the LCS search limit), through both diff.Strings and diff.Bytes.",
       "Trusted: TLC, the in-package accessor exposing toUnified's hunks. 'Exactly the changed lines' is decided as: the hunks patch before into after and none is change-free. "
       "Open known finding: inputs with invalid UTF-8 (see known_findings.json).",
